@@ -183,6 +183,15 @@ def entity_table():
         top.add_edge(3, inner)
         return loft
 
+    def face_shared_curve():
+        # two consecutive edges snapped to ONE curve object (the normal use of OnCurve)
+        c = cb.CircleCurve([0, 0, 0], [1, 0, 0], [0, 0, 1], (0, math.pi / 2))
+        pt = lambda t: [math.cos(t), math.sin(t), 0.0]  # noqa: E731
+        f = cb.Face([pt(0), pt(math.pi / 4), pt(math.pi / 2), [0.2, 0.2, 0]])
+        f.add_edge(0, cb.OnCurve(c, n_points=3))
+        f.add_edge(1, cb.OnCurve(c, n_points=3))
+        return f
+
     def face_shared_origin():
         o = cb.Origin([0.5, 0.5, 0.0])
         return cb.Face([[0, 0, 0], [1, 0, 0], [1, 1, 0], [0, 1, 0]], [o, None, o, None])
@@ -204,6 +213,8 @@ def entity_table():
         "LoftSharedAngle": ("additive", loft_shared_angle),
         "LoftSharedAcrossFaces": ("additive", loft_shared_across_faces),
         "FaceSharedOrigin": ("face", face_shared_origin),
+        "FaceSharedCurve": ("face", face_shared_curve),
+        "ExtrudeSharedCurve": ("additive", lambda: cb.Extrude(face_shared_curve(), [0.1, 0.0, 0.5])),
         "Box": ("additive", lambda: cb.Box([0.1, 0.2, 0.3], [1.1, 0.9, 1.5])),
         "Grid": ("sketch", lambda: cb.Grid([0, 0, 0], [2, 1, 0], 2, 1)),
         "OneCoreDisk": ("sketch", lambda: cb.OneCoreDisk([0.2, 0.1, 0.0], [1.2, 0.1, 0.0], [0, 0, 1])),
@@ -253,7 +264,7 @@ def entity_table():
     return ent
 
 
-CHEAP = ["Point", "Face", "FaceAngle", "LoftSharedAngle", "LoftSharedAcrossFaces", "FaceSharedOrigin", "DiscreteCurve", "LinearInterpolatedCurve", "SplineInterpolatedCurve", "LineCurve", "CircleCurve", "LoftEdges", "Extrude", "Revolve", "Wedge", "OnCurveLoft", "Box", "Grid", "OneCoreDisk", "RevolvedShape", "ArcData", "OriginData", "AngleData", "SplineData", "PolyLineData", "OnCurveData"]
+CHEAP = ["Point", "Face", "FaceAngle", "LoftSharedAngle", "LoftSharedAcrossFaces", "FaceSharedCurve", "ExtrudeSharedCurve", "FaceSharedOrigin", "DiscreteCurve", "LinearInterpolatedCurve", "SplineInterpolatedCurve", "LineCurve", "CircleCurve", "LoftEdges", "Extrude", "Revolve", "Wedge", "OnCurveLoft", "Box", "Grid", "OneCoreDisk", "RevolvedShape", "ArcData", "OriginData", "AngleData", "SplineData", "PolyLineData", "OnCurveData"]
 
 
 def cases(tier, seed):
